@@ -123,25 +123,26 @@ def obtainGnd (args : List Arg) (e : Option CG) : RM CG :=
     else ext e
   | _ => valueError
 
+def obtainGnpGo (e : Option CG) (a p : Arg) (t? : Option Arg) : RM CG := do
+  let n ← argInt a
+  match p.flt? with
+  | none =>
+    -- float(p) is nan or ±inf: `t = int(t)` is evaluated first, then `0 <= p <= 1` fails
+    match t? with
+    | some t => do let _ ← argInt t; valueError
+    | none => valueError
+  | some (pn, pd) =>
+    let t ← (match t? with | some t => argInt t | none => pure 1)
+    guard (gnpGuard n pn pd t)
+    if t = 1 then ext e
+    else do
+      let G ← multipartiteTnp t.toNat n.toNat pn pd
+      pure (.simple G)
+
 def obtainGnp (args : List Arg) (e : Option CG) : RM CG :=
-  let go (a p : Arg) (t? : Option Arg) : RM CG := do
-    let n ← argInt a
-    match p.flt? with
-    | none =>
-      -- float(p) is nan or ±inf: `t = int(t)` is evaluated first, then `0 <= p <= 1` fails
-      match t? with
-      | some t => do let _ ← argInt t; valueError
-      | none => valueError
-    | some (pn, pd) =>
-      let t ← (match t? with | some t => argInt t | none => pure 1)
-      guard (gnpGuard n pn pd t)
-      if t = 1 then ext e
-      else do
-        let G ← multipartiteTnp t.toNat n.toNat pn pd
-        pure (.simple G)
   match args with
-  | [a, p] => go a p none
-  | [a, p, t] => go a p (some t)
+  | [a, p] => obtainGnpGo e a p none
+  | [a, p, t] => obtainGnpGo e a p (some t)
   | _ => valueError
 
 def obtainGnm (args : List Arg) (e : Option CG) : RM CG :=
